@@ -31,21 +31,31 @@ Runtime monitoring of the REAL simulators and kernels; the oracle is the algebra
     without ghost reset) sum to zero; forcing-curl update and Laplacian filter (orders 1..3, both types,
     scalar/vector) leave the sum unchanged.
 
-Measured max err/tol on the unchanged tree (seeds 0..5 quick, 0..1 thorough): see evidence; all <= 0.1.
+Measured max err/tol on the unchanged tree (seeds 0..5 quick, 0..1 thorough, both precisions):
+  end to end (16 eps S)                           ns2d 0.038  ns3d 0.0075  passive 0.022
+  end to end vs 16 eps sum(|before|+|after|)      0.058  (informational, not enforced)
+  face pairing (16 eps max|f v|)                  0.083  (= 0.33 of DESIGN's 4 eps; a sum of three products in two
+                                                  association orders differs by <= ~1.3 eps max|f v|)
+  delta / compact ENO3 flux sums, diffusion flux, forcing curl, filter sums (16 eps sum|terms|)   <= 0.031
+  no case discarded, no non-finite state, support growth == computed reach in the worst case.
+Wall (16 cores shared with other checks): quick 40-45 s (15 s unloaded), thorough 130-200 s.
 
-Deliberate breaks (tools/mut.sh --sed, quick tier) — see MUTATIONS.
-
-MUTATIONS
-  advection_flux_2d.py  back-x kernel 5/6 -> 4/6 (first branch only)                 VIOLATION face-flux-mismatch, delta/compact flux sum, e2e ns2d/passive
-  advection_flux_3d.py  back-y kernel 5/6 -> 4/6                                      VIOLATION face-flux-mismatch (3d ax1), sums, e2e passive 3-D
-  advection_flux_2d.py  upwind condition flipped in the front-y kernel only           VIOLATION face-flux-mismatch (all sign patterns except ties)
-  advection_flux_3d.py  condition '>' -> '>=' in the front-x kernel only              VIOLATION face-flux-mismatch on ties only
-  update_vorticity_from_velocity_forcing_2d.py  '- f_y[0,-1]' -> '- 0.9 * f_y[0,-1]' VIOLATION forcing-curl-sum-changed, e2e ns2d
-  update_vorticity_from_velocity_forcing_3d.py  '+ f_y[-1,0,0]' -> '+ 1.1 * ...'      VIOLATION forcing-curl-sum-changed, e2e ns3d (advection also uses it)
-  diffusion_flux_2d.py  centre weight 4 -> 5                                          VIOLATION diffusion-flux-sum!=0, e2e ns2d/passive
-  diffusion_flux_3d.py  centre weight 6 -> 5                                          VIOLATION diffusion-flux-sum!=0, e2e ns3d/passive
-  laplacian_filter_3d.py  y stencil '2 * field' -> '2.1 * field'                      VIOLATION filter-sum-changed, e2e ns3d with filter
-  laplacian_filter_3d.py  x stencil '- field[0,0,-1]' -> '- 0.9 * field[0,0,-1]'      VIOLATION filter-sum-changed
+MUTATIONS  (tools/mut.sh --sed, quick tier, seed 0; every one reported VIOLATION with the mechanisms listed)
+  advection_flux_2d.py:65   back-x kernel 5/6 -> 4/6 (upwind branch only)        face-flux-mismatch:2d-x, delta-flux-sum!=0, advection-flux-sum!=0,
+                                                                                grid-sum-changed:ns2d, grid-sum-changed:passive
+  advection_flux_3d.py:121  back-y kernel 5/6 -> 4/6 (else branch only)          face-flux-mismatch:3d-y, delta-flux-sum!=0, advection-flux-sum!=0, grid-sum-changed:passive
+  advection_flux_3d.py:170  back-z kernel 1/3 -> 1/2 (else branch only)          face-flux-mismatch:3d-z, delta-flux-sum!=0, advection-flux-sum!=0, grid-sum-changed:passive
+  advection_flux_2d.py:93   front-y condition '>' -> '<' (one kernel only)       face-flux-mismatch:2d-y, delta-flux-sum!=0, advection-flux-sum!=0, grid-sum-changed:ns2d/passive
+  advection_flux_3d.py:41   front-x condition '>' -> '>=' (differs on ties only) face-flux-mismatch:3d-x (pattern 'tie'), delta-flux-sum!=0, grid-sum-changed:passive
+  update_vorticity_from_velocity_forcing_2d.py:39  '- f_y[0,-1]' -> '- 0.9*f_y[0,-1]'       forcing-curl-sum-changed, grid-sum-changed:ns2d
+  update_vorticity_from_velocity_forcing_3d.py:44  '+ f_y[-1,0,0]' -> '+ 1.1*f_y[-1,0,0]'   forcing-curl-sum-changed, grid-sum-changed:ns3d (also the advection term)
+  diffusion_flux_2d.py:35   centre weight 4 -> 5                                 diffusion-flux-sum!=0, grid-sum-changed:ns2d/passive
+  diffusion_flux_3d.py:43   centre weight 6 -> 5                                 diffusion-flux-sum!=0, grid-sum-changed:ns3d/passive
+  laplacian_filter_3d.py:68 y stencil '2 * field' -> '2.1 * field'               filter-sum-changed, grid-sum-changed:ns3d
+  laplacian_filter_3d.py:61 x stencil '- field[0,0,-1]' -> '- 0.9 * field[0,0,-1]'  filter-sum-changed, grid-sum-changed:ns3d
+  advection_timestep_2d.py:46  reset of the advection-flux buffer dropped        grid-sum-changed:ns2d/passive (scratch arrays are poisoned before each step)
+  diffusion_flux_3d.py:73   ghost-ring reset of the diffusion flux dropped       diffusion-flux-sum!=0 only (kernel level: flux array pre-loaded with garbage);
+                                                                                not observable end to end -- every caller zeroes or fully overwrites the buffer first
 """
 import numpy as np
 
@@ -57,7 +67,7 @@ TITLE = "Transport, diffusion and forcing conserve total vorticity / transported
 RULE = (
     "end to end: pairwise covering array over {forcing, free stream, filter off|mult 1..3|conv 1..3, solver, zone width "
     "0/2/3/4, precision} on fixed non-cubic shape pools (boundary-damping kernels bake width/dx/extent), per configuration "
-    "2-5 random states (field class noise/spikes/checker/smooth/big/plateau with non-zero mean, velocity class "
+    "3-8 random states (field class noise/spikes/checker/smooth/big/plateau with non-zero mean, velocity class "
     "noise/big/const/zeros-mixed, log-uniform nu, rho, dt with Courant and diffusion numbers 1e-3..1e3), ONE step; "
     "cell level: random non-cubic shapes, velocity fields built from sign blocks + exact ties + zeros so that every upwind "
     "pattern occurs on every axis.  distinct = (simulator, options, precision, field class, velocity class, dt regime) "
